@@ -19,6 +19,21 @@ type Sorts struct {
 	tagTypes []types.Type
 	names    map[string]string // mangled short name -> key (collision detection)
 	boxes    map[string]bool   // sorts that need box/unbox
+	valofN   map[string]int    // struct sort -> number of fields when a valof() term was first built
+}
+
+// noteValof records the field count used by a valof() term; the count must not grow afterwards
+// (a later-discovered field would make earlier terms claim the zero value for it).
+func (s *Sorts) noteValof(si *StructInfo, n int) {
+	if s.valofN == nil {
+		s.valofN = map[string]int{}
+	}
+	if old, ok := s.valofN[si.Sort]; !ok || n > old {
+		if ok && n > old {
+			panic("valof(" + si.Sort + "): struct gained a field after a valof term was built")
+		}
+		s.valofN[si.Sort] = n
+	}
 }
 
 type StructInfo struct {
@@ -309,6 +324,11 @@ func (s *Sorts) Preamble(text string) string {
 		}
 		if len(s.structs)+len(s.slices) == n {
 			break
+		}
+	}
+	for so, n := range s.valofN {
+		if si := s.structs[so]; si != nil && len(si.Fields) != n {
+			panic("valof(" + so + "): struct gained a field after a valof term was built")
 		}
 	}
 	type node struct {
